@@ -272,6 +272,9 @@ type c18Read struct {
 	BoundPt int        `json:"bound_port"`
 	Frames  []c18Frame `json:"frames"`
 	NoBound bool       `json:"no_bound,omitempty"` // the connection is created without a bound address (nil): nothing to filter on
+	// ExactBuf: the caller's read buffer is exactly as long as the longest payload to be delivered (instead of 2048): a
+	// datagram that fits the buffer is returned whole, whatever the size of its IP header
+	ExactBuf bool `json:"exact_buf,omitempty"`
 }
 
 type c18Deliver struct {
@@ -387,9 +390,19 @@ var c18r = newChk("C18", "read-sequence",
 		}
 		conn := nclient4.NewBroadcastUDPConn(raw, ba)
 		var kept []*net.UDPAddr
+		bufLen := 2048
+		if c.ExactBuf {
+			bufLen = 0
+			for _, w := range want {
+				bufLen = max(bufLen, len(w.payload))
+			}
+		}
 		for i := 0; ; i++ {
-			buf := make([]byte, 2048)
+			buf := make([]byte, bufLen)
 			n, addr, err := conn.ReadFrom(buf)
+			if err != nil && n != 0 {
+				return obs.Failf("C18/read/error-with-data", "no data together with an error", "n=%d err=%v", n, err)
+			}
 			if err != nil {
 				if !errors.Is(err, io.EOF) {
 					return obs.Failf("C18/read/error", "io.EOF after the last frame", "%v", err)
@@ -438,6 +451,7 @@ func genC18Read() *rapid.Generator[c18Read] {
 		} else if rapid.IntRange(0, 3).Draw(t, "nobound") == 0 {
 			c.NoBound = true
 		}
+		c.ExactBuf = rapid.IntRange(0, 3).Draw(t, "exactbuf") == 0
 		n := rapid.IntRange(1, 30).Draw(t, "nframes")
 		for i := 0; i < n; i++ {
 			f := c18Frame{Kind: rapid.IntRange(0, 11).Draw(t, "kind"), IHL: rapid.SampledFrom([]int{5, 5, 5, 6, 7, 15}).Draw(t, "ihl"),
@@ -455,6 +469,10 @@ func TestC18_ReadRapid(t *testing.T) { c18r.rapidCheck(t, genC18Read()) }
 // TestC18_ReadTruncations: a valid frame cut at every offset, between two valid frames.
 func TestC18_ReadTruncations(t *testing.T) {
 	for _, ihl := range []int{5, 6, 15} {
+		for _, plen := range []int{0, 1, 20, 300, 1500} {
+			f := c18Frame{Kind: 0, IHL: ihl, Payload: bytes.Repeat([]byte{0xcd}, plen), SrcIP: []byte{10, 0, 0, 2}, SrcPort: 67, Pad: plen % 3}
+			c18r.one(t, c18Read{BoundPt: 68, Frames: []c18Frame{f, f}, ExactBuf: true})
+		}
 		base := c18Frame{Kind: 0, IHL: ihl, Payload: bytes.Repeat([]byte{0xab}, 20), SrcIP: []byte{10, 0, 0, 1}, SrcPort: 67}
 		full, _ := base.build([4]byte{}, false, 68)
 		for cut := 1; cut < len(full); cut++ {
